@@ -36,13 +36,13 @@ import (
 )
 
 type Step struct {
-	Op     string `json:"op"` // write delete read list listowner watch wnext wclose drain snapshot restore
-	C      int    `json:"c,omitempty"`      // client
+	Op     string `json:"op"`          // write delete read list listowner watch wnext wclose drain snapshot restore
+	C      int    `json:"c,omitempty"` // client
 	Name   string `json:"name,omitempty"`
 	NS     string `json:"ns,omitempty"`
 	Data   string `json:"data,omitempty"`
-	Vsn    string `json:"vsn,omitempty"`    // read | stale | empty | bogus
-	UID    string `json:"uid,omitempty"`    // read | new | wrong
+	Vsn    string `json:"vsn,omitempty"` // read | stale | empty | bogus
+	UID    string `json:"uid,omitempty"` // read | new | wrong
 	Owner  string `json:"owner,omitempty"`
 	W      int    `json:"w,omitempty"`
 	Wild   bool   `json:"wild,omitempty"`
@@ -158,15 +158,15 @@ func (h *handle) IsLeader() bool                                { return true }
 func (h *handle) EnsureStrongConsistency(context.Context) error { return nil }
 
 type watcher struct {
-	id      int
-	w       storage.Watch
-	wild    bool
-	ns      string
-	prefix  string
-	view    map[string]*mres
-	lastVsn map[string]uint64
-	snap    bool
-	pending chan wres
+	id           int
+	w            storage.Watch
+	wild         bool
+	ns           string
+	prefix       string
+	view         map[string]*mres
+	lastVsn      map[string]uint64
+	snap         bool
+	pending      chan wres
 	afterRestore bool
 }
 type wres struct {
